@@ -43,10 +43,13 @@ func (m *F81Model) Distance(seq1 []uint8, seq2 []uint8, weights []float64) (floa
 	} else {
 		dist = -1. * m.b1 * math.Log(1.-diff/m.b1)
 	}
-	if dist > 0 {
-		return dist, nil
+	// Slightly negative distances (rounding) are set to 0.
+	// A distance that is not defined (NaN: saturation, no comparable
+	// site) is not a null distance: it is returned as is
+	if dist < 0 {
+		return 0, nil
 	}
-	return 0, nil
+	return dist, nil
 }
 
 func (m *F81Model) InitModel(al align.Alignment, weights []float64, gamma bool, alpha float64) (err error) {
